@@ -44,6 +44,9 @@ def make_spec(rng, f, th, cls):
         E = np.zeros((nf, nd))
         for _ in range(int(rng.integers(1, 4))):
             E[rng.integers(nf), rng.integers(nd)] = float(rng.uniform(0.1, 5))
+    elif cls == "floor":
+        E, _ = gen.spectrum(rng, f, th, "multimodal")
+        E = np.maximum(E / max(E.max(), 1e-300), float(rng.uniform(0.03, 0.4)))
     elif cls == "noisy":
         E, _ = gen.spectrum(rng, f, th, "multimodal")
         E = E * (1 + 0.3 * rng.random(E.shape))
@@ -52,7 +55,7 @@ def make_spec(rng, f, th, cls):
     return E
 
 
-CLASSES = ["multimodal", "multimodal", "noisy", "plateau", "sparse", "constant"]
+CLASSES = ["multimodal", "multimodal", "noisy", "plateau", "sparse", "constant", "floor", "floor"]
 
 
 def repo_tests(ctx, mode, tests):
@@ -94,9 +97,34 @@ def run(ctx):
         numpy_level(ctx, rng, pmod, mr, utils)
     for i, rng in ctx.cases("accessor", ctx.n(260, 6000)):
         accessor_level(ctx, rng, xr, pmod, mr, utils)
+    corpus(ctx, pmod, mr)
     if ctx.thorough and ctx.shard == 0 and ctx.only is None:
         specpart.partition = mr.orig
         repo_tests(ctx, "c03", ["tests/test_partition.py"])
+
+
+def corpus(ctx, pmod, mr):
+    """Regression corpus of spectra with thick watershed zones (see vf/checks/c04.py): with more
+    partitions requested than detected the partitions must still add up to the input."""
+    import os
+    z = np.load(os.path.join(os.path.dirname(os.path.dirname(os.path.abspath(__file__))), "corpus_thick_watershed.npz"))
+    names = sorted(z.files)
+    for k, rng in ctx.cases("corpus", len(names)):
+        S = np.asarray(z[names[k]], dtype="float64")
+        nf, nd = S.shape
+        f = 0.04 * 1.08 ** np.arange(nf)
+        th = np.arange(nd) * (360.0 / nd)
+        for kind in ("ptm3", "ptm1"):
+            mr.take()
+            if kind == "ptm3":
+                out = pmod.np_ptm3(S, S, f, th, parts=12, ihmax=100)
+                wind = None
+            else:
+                wind = (12.0, 200.0, 50.0, 1.7, 0.3333)
+                out = pmod.np_ptm1(S, S, f, th, wind[0], wind[1], wind[2], swells=12, ihmax=100)
+            calls = mr.take()
+            judge(ctx.rec, "np_" + kind, "corpus|%s|%s" % (names[k][0], kind), kind, S, calls[0][2], f, th, out, 12, wind, 1e-9,
+                  {"ihmax": 100, "kind": kind, "native_ptp": float(np.ptp(calls[0][0])), "corpus": names[k]})
 
 
 def grid(rng, small=False):
